@@ -318,6 +318,10 @@ def gen_bool_values(rng, n, alphabet):
             out.append((vstr(w + ws), 'word-rpad-each-ws'))
     for v in other_values(rng) + [vint(k) for k in (0, 1, 2, -1, 10, 11)]:
         out.append((v, 'nonstr/' + v['t']))
+    lim = sys.get_int_max_str_digits()
+    if lim > 0:                                       # str(int) at the conversion limit (known finding C14-F2)
+        out.append((V('int', '1', zeros=lim - 1), 'limit/int/+0'))
+        out.append((V('int', '1', zeros=lim), 'limit/int/+1'))
     fixed = ['', ' ', 'none', 'null', 'enabled', 'tru', 'yess', '2', '00', '01', '-1', '+1', '1.0', 'o n', 'on\x00',
              'True\n', '\ttrue', ' FALSE ', 'yEs', 'of', 'nO', 'y e s', '1 0', 't\x1cf']
     for s in fixed:
@@ -866,11 +870,19 @@ def classify(ctx, failure, listed):
     return None
 
 
+FN_ALIASES = {'bool_from_string': 'bool', 'is_valid_boolstr': 'boolstr', 'int_from_bool_as_string': 'intbool',
+              'is_int_like': 'intlike', 'validate_integer': 'valint', 'check_string_length': 'strlen',
+              'is_uuid_like': 'uuid'}
+
+
 def witness_reproduces(ctx, finding):
     if finding['id'] != 'C14-F2':
         return False
     w = finding['witness']
-    case = {'fn': w['fn'], 'value': w['value']}
+    case = dict(w, fn=FN_ALIASES.get(w['fn'], w['fn']))
+    case.setdefault('strict', False)
+    case.setdefault('min', None)
+    case.setdefault('max', None)
     return check_case(case) is not None and in_f2_class(case)
 
 
